@@ -329,12 +329,8 @@ fn run_history_via_start(spec: &Spec) -> Vec<(String, String)> {
     let v = run_local(async {
         let mut v: Vec<(String, String)> = vec![];
         let mut shadow: Option<RateLimiter<IpAddr>> = (spec.limit > 0).then(|| RateLimiter::new(Duration::from_secs(3600), spec.limit));
-        if mode == "off" {
-            // the readiness probe came from 127.0.0.1 and was charged to it
-            if let Some(s) = shadow.as_mut() {
-                let _ = s.enqueue("127.0.0.1".parse().unwrap());
-            }
-        }
+        // (readiness is read off the child's own listening socket - `net::wait_until_listening` -: no probe
+        // connection has been made, nobody's budget has been touched)
         for (i, kind) in spec.history.iter().enumerate() {
             let obs = run_connection(addr, kind, false).await;
             let mut bad = |key: String, t: String| v.push((format!("{key}:through-passage-start"), format!("connection #{i} {kind:?} (passage::start, proxy {mode}): {t}")));
